@@ -376,7 +376,20 @@ def run(res):
     aobs = res.extra.pop("_aobs", [])
 
     def on_broken(log):
-        return api_oracle(res, values, acc) + arg_oracle(res, aobs) > 0
+        n = 0
+        m = re.findall(r"=\s*\[([^\]]*)\]\s*:\s*list N", log)
+        if len(m) >= 2:
+            # acceptance tie: the values on which the library and the grammar (the model's parser) disagree
+            tied = [(v, sp) for v, sp in acc if "panic" not in sp]
+            for i in [int(x.replace("%N", "")) for x in m[1].replace("\n", " ").split(";") if x.strip()][:3]:
+                if i < len(tied):
+                    v, sp = tied[i]
+                    lib_accepts = not rejected_by_intent(sp)
+                    res.violation("IntentErrorRecovery=Error: the intent value %r %s, the intent grammar says the opposite (library: %s)"
+                                  % (v, "is accepted" if lib_accepts else "is rejected", str(sp)[:100]),
+                                  {"kind": "intent", "value": v, "mathml": expr(v), "mode": "ErrorExpected" if lib_accepts else "honoured", "observed": sp})
+                    n += 1
+        return n + api_oracle(res, values, acc) + arg_oracle(res, aobs) > 0
     proved = C.check_proofs(res, "C19", ["Props/C19.vo", "Tie/C19Tie.vo"], "Props/C19.v", search=on_broken)
     if proved:
         api_oracle(res, values, acc)
